@@ -35,5 +35,5 @@ for P, names in specs.items():
     mp = os.path.join(V, "meta/%s.json" % P)
     m = json.load(open(mp))
     m["obligations"] = [o for o in m["obligations"] if "_shape_" not in o] + ["%s.%s" % (P, t) for t in ths]
-    json.dump(m, open(mp, "w"), indent=1)
+    json.dump(m, open(mp, "w"), indent=1, ensure_ascii=False)
     print(P, len(ths))
